@@ -9,6 +9,10 @@ the exit flag.  Round 3: every re-decoration continues the evaluation counter (s
 C04.b), so the evaluation limit bounds the total.
 Round 4: the EvaluationLimits termination condition answers per its documented
 predicate (a limit of 0 is a limit).
+Round 5 (hunt): SetEvaluationLimits' case analysis follows the value actually
+stored (maxiter= / maxfun= spellings included; repair 834de84); only a solver
+with a decorated objective is ever marked live outside the decorators (repair
+03c2d04).
 NOT decided: that Solve returns for every cost, the size of the
 evaluation overshoot.
 """
@@ -459,6 +463,7 @@ def _final_attr_cases(ctx, f, attr):
             continue
         b = T.Builder()
         lits = []
+        history = []          # every value the attribute held on this path (an overwritten conditional store still decides the case)
         for e in p.events:
             if e[0] == 'cond':
                 c_, tr_ = T.simp(b.t(e[1])), e[2]
@@ -480,12 +485,26 @@ def _final_attr_cases(ctx, f, attr):
                         b.env['%s.%s' % (sn, st.target.attr)] = ('opaque', unparse(st))
                 else:
                     b.exec_stmt(st)
+                cur_ = b.env.get('%s.%s' % (sn, attr))
+                if cur_ is not None and (not history or history[-1] != cur_):
+                    history.append(cur_)
         final = b.env.get('%s.%s' % (sn, attr))
         if final is None:
             out.append((tuple(lits), None, p))
             continue
-        for cl, leaf in T.cases(T.simp(final)):
-            out.append((tuple(lits) + cl, leaf, p))
+        # the path conditions may test the stored value itself (`self._maxiter is not None` after a conditional store): the
+        # conditionals of value and conditions are resolved together, so each case sees its own branch in both
+        joint = ('tuple', T.simp(final)) + tuple(t_ for t_, _ in lits) + tuple(T.simp(h) for h in history)
+        for cl, leaf in T.cases(joint):
+            spec = []
+            for (t_, tr_), t2 in zip(lits, leaf[2:2 + len(lits)]):
+                t2 = T.simp(t2)
+                while isinstance(t2, tuple) and t2 and t2[0] == 'not':
+                    t2, tr_ = t2[1], not tr_
+                if isinstance(t2, tuple) and t2 and t2[0] == 'cmp' and t2[1] == 'isnot':
+                    t2, tr_ = ('cmp', 'is') + t2[2:], not tr_
+                spec.append((t2, tr_))
+            out.append((tuple(spec) + cl, T.simp(leaf[1]), p))
     ctx.stats['paths_enumerated'] += len(out)
     return out
 
@@ -519,27 +538,30 @@ def limit_bookkeeping(ctx):
         ctx.need(cs, 'SetEvaluationLimits: no path stores %s' % attr)
         bad = None
         n_new = n_plain = n_star = 0
+        in_kw = T.mk_cmp('in', ('const', kw), ('name', 'kwds'))
         for lits, leaf, p in cs:
             if leaf is None:
                 bad = bad or ('a path leaves %s unset' % attr, p)
                 continue
+            # which of the two spellings carries the limit on this path: the backward-compatible keyword wins when present
+            mine = [given[1]] if _lit_says(lits, in_kw, True) else [given[0]] if _lit_says(lits, in_kw, False) else given
             newv = _truthy(lits, 'new')
             if newv is None:
                 bad = bad or ('the value of %s does not depend on `new` on path %s' % (attr, p.describe(4)), p)
                 continue
             if not newv:
                 n_plain += 1
-                if leaf not in given:
+                if leaf not in mine:
                     bad = bad or ('without new=True %s becomes %s instead of the given limit' % (attr, T.show(leaf)), p)
                 continue
             if leaf == ('const', '*'):
                 n_star += 1
-                if not _is_none_fact(lits, param):
-                    bad = bad or ('with new=True the "*" (use-default) sentinel is stored for %s although the given limit is not None '
-                                  '(a limit of 0 is silently replaced by the default budget)' % attr, p)
+                if not any(_lit_says(lits, T.mk_cmp('is', g, ('const', None)), True) or _lit_says(lits, T.mk_cmp('==', g, ('const', None)), True) for g in mine):
+                    bad = bad or ('with new=True the "*" (use-default) sentinel is stored for %s although the given limit (%s) is not known to be None '
+                                  '(a limit of 0, or one given as %s=, is silently replaced by the default budget)' % (attr, ' / '.join(T.show(g) for g in mine), kw), p)
                 continue
             n_new += 1
-            want = [T.simp(T.padd(g, ('attr', S, counter))) for g in given]
+            want = [T.simp(T.padd(g, ('attr', S, counter))) for g in mine]
             if leaf not in want:
                 bad = bad or ('with new=True %s becomes %s, expected the given limit + self.%s' % (attr, T.show(leaf), counter), p)
         ctx.need(bad or (n_new and n_star and n_plain), 'SetEvaluationLimits: cases for %s not recognised (new=%d star=%d plain=%d)' % (attr, n_new, n_star, n_plain))
@@ -690,3 +712,42 @@ def limits_as_a_termination_condition(ctx):
     """the limits can also be given as the termination condition EvaluationLimits(generations, evaluations): it answers "satisfied" exactly when evaluations >= the evaluation limit or generations >= the generation limit, None meaning no limit and 0 meaning 0 (truth-table equivalence with the documented predicate; shared with C10.c) - a limit of 0 treated as "none" lets the solver iterate on after the initial evaluation although the condition holds"""
     from .c10 import primitive_predicates
     primitive_predicates(ctx, only=('EvaluationLimits',))
+
+
+@rule('C05.n', min_instances=2)
+def only_a_decorated_solver_is_marked_live(ctx):
+    """who may set <solver>._live = True: the _decorate_objective family (which stores the decorated objective in the same breath) and, as a documented hack, the ensemble closures _step / _solve for a member found 'not live but terminated'. A member that has never run also looks like that when a limit is 0 (0 >= 0): forced live, its Step skips the decoration and calls the objective None - Solve raises instead of returning. Every store of True outside the decorators is therefore guarded by `<solver>._cost[0] is not None` (the member has a decorated objective)"""
+    n = 0
+    for mname, m in sorted(ctx.model.modules.items()):
+        if mname.startswith('mystic.tests'):
+            continue
+        for q, fi in sorted(m.funcs.items()):
+            if fi.name == '_decorate_objective':
+                continue
+            for st in stmts_of(fi.node):
+                if not (isinstance(st, ast.Assign) and len(st.targets) == 1 and isinstance(st.targets[0], ast.Attribute) and st.targets[0].attr == '_live'
+                        and isinstance(st.value, ast.Constant) and st.value.value is True):
+                    continue
+                n += 1
+                ctx.touch(fi)
+                obj = unparse(st.targets[0].value)
+                want = '%s._cost[0] is not None' % obj
+                local = {}
+                for s2 in stmts_of(fi.node):
+                    if s2.lineno < st.lineno and isinstance(s2, ast.Assign) and len(s2.targets) == 1 and isinstance(s2.targets[0], ast.Name):
+                        local[s2.targets[0].id] = s2.value
+
+                def conjuncts(e, depth=0):
+                    if isinstance(e, ast.BoolOp) and isinstance(e.op, ast.And):
+                        return [c for v in e.values for c in conjuncts(v, depth)]
+                    if isinstance(e, ast.Compare) and len(e.ops) == 1 and isinstance(e.ops[0], ast.Is) and isinstance(e.comparators[0], ast.Constant) and e.comparators[0].value is True:
+                        return conjuncts(e.left, depth)
+                    if isinstance(e, ast.Name) and e.id in local and depth < 4:
+                        return conjuncts(local[e.id], depth + 1)
+                    return [e]
+                have = [' '.join(unparse(c).split()) for t_, tr, _ in guards_of(st) if tr for c in conjuncts(t_)]
+                ok_ = want in have or ('%s._cost[0] is None' % obj) in [' '.join(unparse(t_).split()) for t_, tr, _ in guards_of(st) if not tr]
+                ctx.check(ok_, '%s#%s._live=True' % (fi.qualname, obj), 'marked live only when it has a decorated objective (%s)' % want,
+                          '%s forces %s._live = True without knowing that the solver has a decorated objective (%s): a member that never ran but already meets a limit of 0 is stepped with the objective None, '
+                          'and Solve raises TypeError instead of returning' % (fi.qualname, obj, want), fi, st)
+    ctx.need(n >= 2, 'expected the two _live = True stores of the ensemble closures, found %d' % n)
